@@ -20,7 +20,7 @@ import (
 func vcStateUnder(pre string) (*bucket, refCModel) {
 	var m refCModel
 	objs := make(map[string]*internal.ImmutableObject)
-	cnt := verifNondetChoice(3)
+	cnt := verifNondetChoice(vcMaxObjs() + 1)
 	for i := 0; i < cnt; i++ {
 		var p string
 		if verifNondetBool() {
@@ -333,7 +333,7 @@ func vcTwoStates() (*bucket, refCModel, *bucket, refCModel) {
 	var m1, m2 refCModel
 	o1 := make(map[string]*internal.ImmutableObject)
 	o2 := make(map[string]*internal.ImmutableObject)
-	cnt := verifNondetChoice(3)
+	cnt := verifNondetChoice(vcMaxObjs() + 1)
 	for i := 0; i < cnt; i++ {
 		p := vcShapePath(n)
 		if i == 1 {
